@@ -689,18 +689,24 @@ class Engine:
             self.write_place(item, frame, st, t["dest"], res, trace, site)
             return target
         # --- inlining of workspace callees
+        force_inline = False
         callee_item = self.fb.lookup(t.get("resolved") or "") or self.fb.lookup(t.get("callee") or "")
         # a call through Fn/FnMut/FnOnce on a closure value that is known on this path (e.g. a closure passed to a generic helper
         # that was inlined): evaluate the closure's body with the untupled arguments
-        if callee_item is None and re.search(r"ops::(function::)?Fn(Mut|Once)?(<.*>)?::call(_mut|_once)?$", name.split("@")[0]) and len(raw_args) == 2:
+        if callee_item is None and re.search(r"ops::(function::)?Fn(Mut|Once)?(<.*>)?::call(_mut|_once)?$", name.split("@")[0]) and len(raw_args) >= 1:
             cv = self.value_of(st, raw_args[0])
-            av = self.value_of(st, raw_args[1])
-            if isinstance(cv, tuple) and cv and cv[0] == "closure" and isinstance(av, tuple) and av and av[0] == "tuple":
+            rest = list(raw_args[1:])
+            if len(rest) == 1:
+                av = self.value_of(st, rest[0])
+                if isinstance(av, tuple) and av and av[0] == "tuple":
+                    rest = list(av[1])       # the argument tuple of the rust-call ABI
+            if isinstance(cv, tuple) and cv and cv[0] == "closure":
                 ci = self.fb.items.get(cv[1])
-                if ci is not None and ci.arg_count == 1 + len(av[1]) and not self.has_loops(ci) and self.count_returns(ci) <= INLINE_SWITCHES and depth < self.max_depth:
+                if ci is not None and ci.arg_count == 1 + len(rest) and not self.has_loops(ci) and self.count_returns(ci) <= INLINE_SWITCHES and depth < self.max_depth + 2:
                     callee_item = ci
-                    raw_args = [cv] + list(av[1])
-        if callee_item is not None and callee_item.path != item.path and self.should_inline(callee_item, depth):
+                    raw_args = [cv] + rest
+                    force_inline = True
+        if callee_item is not None and callee_item.path != item.path and (force_inline or self.should_inline(callee_item, depth)):
             if target is None:
                 self.npaths += 1
                 (cont or out.append)(Path("diverge", None, trace, st, frame, site=site))
